@@ -591,6 +591,150 @@ def check_range(out, rng, scale, us, replay=None):
             break
 
 
+# ---------------------------------------------------------------- dates derived by arithmetic carry the record of their own instant
+
+DERIVED_VIAS = ("add", "sub", "chain", "range")
+
+
+def own_midnight_band(scale, us):
+    """the clock reading `us` in `scale` lies on another UTC day than its own day number says (the first TAI-UTC / +32.184 /
+    -19 s after own-scale midnight for TAI / TT / GPS, |UT1-UTC| for UT1): where a record chosen by own-scale day is wrong"""
+    day = us // DAY_US
+    utc = us - approx_minus_utc(scale, day)
+    if scale in ("UT1",):
+        u = tables()[1].get(day)
+        utc = us - (u or 0) // TICK
+    return utc // DAY_US != day
+
+
+def derive(a, via, t, k=3):
+    """the date `t` microseconds after `a`, obtained by arithmetic on `a` (never by the constructor on a clock reading)"""
+    from beyond.dates import Date, timedelta
+    if via == "add":
+        return a + timedelta(microseconds=t)
+    if via == "sub":
+        return a - timedelta(microseconds=-t)
+    if via == "chain":
+        t1 = t // 3
+        return (a + timedelta(microseconds=t1)) + timedelta(microseconds=t - t1)
+    if via == "range":
+        # the k-th date yielded by a DateRange of step t / k (t a multiple of k)
+        step = t // k
+        rg = Date.range(a, timedelta(microseconds=step * (k + 1)), timedelta(microseconds=step))
+        for i, x in enumerate(rg):
+            if i == k:
+                return x
+        raise RuntimeError("range too short")
+    raise ValueError(via)
+
+
+def check_derived(out, scale, us, t, via):
+    """a date obtained from `Date(us, scale)` by `+` / `-` / two additions / DateRange steps is, in every observable, the date
+    constructed directly at the clock reading `us + t`: same instant (==, hash, -), same EOP record and offset, same UTC and
+    UT1 readings; and (outside leap windows) its record is the one the IERS files tabulate for the UTC day of that instant,
+    TAI-UTC read off the clocks is that column, and (d+t)-d = t"""
+    if via == "range":
+        t -= t % 3
+        if t == 0:
+            t = 3
+    a = mkdate(us, scale)
+    band_a, band_r = own_midnight_band(scale, us), own_midnight_band(scale, us + t)
+    where = "operand-in-own-midnight-band" if band_a else "result-in-own-midnight-band" if band_r else "plain"
+    same_day = us // DAY_US == (us + t) // DAY_US
+    inp = {"derived_scale": scale, "clock_us": us, "t_us": t, "via": via, "clock": str(dt_of(us)), "where": where, "same_own_day": same_day}
+    out.count(key=("derived", scale, us, t, via), kind="derived", via=via, scale=scale, where=where, same_own_day=same_day)
+    r = derive(a, via, t)
+    direct = mkdate(us + t, scale)
+    fam = f"derived-date:{{}}:{scale}:{where}"
+    uniform = scale in UNIFORM
+    rec = lambda x: (round(x.eop.tai_utc * 1e7), round(x.eop.ut1_utc * 1e7))   # noqa: E731
+    if rec(r) != rec(direct) or vars(r.eop) != vars(direct.eop):
+        out.fail(fam.format("record"), "a date obtained by arithmetic does not carry the EOP record of the date constructed directly at the same clock reading", inp,
+                 observed={"tai_utc": r.eop.tai_utc, "ut1_utc": r.eop.ut1_utc}, expected={"tai_utc": direct.eop.tai_utc, "ut1_utc": direct.eop.ut1_utc})
+        return
+    if abs(r._offset - direct._offset) > 1e-9:
+        out.fail(fam.format("offset"), "a date obtained by arithmetic does not carry the offset to TAI of the date constructed directly at the same clock reading", inp,
+                 observed=r._offset, expected=direct._offset)
+        return
+    di = td_us(r - direct)
+    flags = (r == direct, hash(r) == hash(direct), di == 0, len({r, direct}) == 1, r.scale.name == scale)
+    if uniform and not all(flags) or abs(di) > 1:
+        out.fail(fam.format("instant"), "a date obtained by arithmetic is not the instant of the date constructed directly at the same clock reading (==, hash, -, set, scale)", inp,
+                 observed=[bool(x) for x in flags] + [di], expected="all True, 0 us")
+        return
+    for sb in ("UTC", "UT1", "TAI"):
+        x, y = r.change_scale(sb), direct.change_scale(sb)
+        dd = td_us(x.datetime - y.datetime)
+        if abs(dd) > (0 if uniform and sb != "UT1" else 2) or rec(x) != rec(y):
+            out.fail(fam.format("reading-" + sb), f"the {sb} reading of a date obtained by arithmetic differs from that of the date constructed directly at the same clock reading", inp,
+                     observed=[str(x.datetime), rec(x)], expected=[str(y.datetime), rec(y)])
+            return
+    # against the IERS columns read independently
+    _, ut1, first, last = tables()
+    if in_leap_window(scale, us + t) or in_leap_window(scale, us) or not (first + 1 <= (us + t) // DAY_US <= last - 1):
+        return
+    ud = utc_day_of(r)
+    utc_tod = (us_of(r._datetime) - (leap_at(ud) or 0) // TICK) % DAY_US
+    if min(utc_tod, DAY_US - utc_tod) <= 3 or ud not in ut1:
+        return      # the day number comes from a double within 3 us of UTC midnight
+    if rec(r) != (leap_at(ud), ut1[ud]):
+        out.fail(fam.format("tabulated"), "the EOP record of a date obtained by arithmetic is not the one tabulated for its UTC day", inp,
+                 observed=rec(r), expected=(leap_at(ud), ut1[ud]))
+        return
+    if uniform:
+        tu = td_us(r.change_scale("TAI").datetime - r.change_scale("UTC").datetime) * TICK
+        if tu != leap_at(ud):
+            out.fail(fam.format("tai-utc"), "TAI-UTC read off the clocks of a date obtained by arithmetic is not the tabulated value of its UTC day", inp, observed=tu, expected=leap_at(ud))
+            return
+        if scale != "UTC" or no_leap_between(scale, min(us, us + t), max(us, us + t)):
+            if td_us(r - a) != t:
+                out.fail(fam.format("add-sub"), "(d+t)-d != t", inp, observed=td_us(r - a), expected=t)
+
+
+def gen_derived(rng, big):
+    """(scale, clock us, t us, via): operands in the band after (UT1 with UT1-UTC < 0: before) own-scale midnight where the own
+    day number is not the UTC day, sums that stay in the same own-scale day (fast paths) or leave it; the mirror (operand later
+    in the day, result in the band); every leap-second day of the finals range and random days; all six scales (UTC as control)"""
+    _, ut1, first, last = tables()
+    lds = [d for d in leap_days() if first + 3 <= d <= last - 3]
+    days = lds + [rng.randint(first + 3, last - 3) for _ in range(60 if big else 12)]
+    for day in days:
+        for scale in SCALES:
+            off = approx_minus_utc(scale, day)
+            if scale == "UT1":
+                off = (ut1.get(day) or 0) // TICK
+            lo, hi = (0, max(off, 1)) if off >= 0 else (DAY_US + off, DAY_US)
+            tods = [rng.randrange(lo, hi), lo if off >= 0 else hi - 1, (lo + hi) // 2]
+            if big:
+                tods += [rng.randrange(lo, hi) for _ in range(3)]
+            for tod in tods:
+                us = day * DAY_US + tod
+                room = DAY_US - 1 - tod if off >= 0 else -tod          # largest move that stays in the own-scale day, away from the band
+                if room == 0:
+                    continue
+                stay = [rng.randint(1, room) if room > 0 else rng.randint(room, -1) for _ in range(2)] + [(3600 * 10**6 if room > 0 else -3600 * 10**6)]
+                leave = [(-1 if off >= 0 else 1) * rng.randint(abs(tod if off >= 0 else DAY_US - tod) + 1, 2 * DAY_US), rng.choice([DAY_US, -DAY_US])]
+                for t in stay + leave[:(2 if big else 1)]:
+                    via = rng.choice(DERIVED_VIAS)
+                    yield scale, us, t, via
+                    if rng.random() < 0.5:
+                        # mirror: start from the result, come back into the band
+                        yield scale, us + t, -t, rng.choice(DERIVED_VIAS[:3])
+
+
+def check_derived_all(out, rng, big):
+    for scale, us, t, via in gen_derived(rng, big):
+        check_derived(out, scale, us, t, via)
+    # the inputs of the seeded demonstration, whatever the seed
+    for scale, us, t, via in PINNED_DERIVED:
+        check_derived(out, scale, us, t, via)
+
+
+# 2017-01-01T00:00:10 TAI + 1 h (leap-second day); 2016-06-15T00:00:05 TT + 6 h; a TAI range started at TAI midnight
+PINNED_DERIVED = [("TAI", 57754 * DAY_US + 10 * 10**6, 3600 * 10**6, "add"), ("TT", 57554 * DAY_US + 5 * 10**6, 6 * 3600 * 10**6, "add"),
+                  ("TAI", 57754 * DAY_US, 3 * 1800 * 10**6, "range"), ("GPS", 57754 * DAY_US + 10 * 10**6, 43200 * 10**6, "sub")]
+
+
 class _Grab(logging.Handler):
     def __init__(self):
         super().__init__()
@@ -878,6 +1022,7 @@ def oracle(ctx, widened):
     for _ in range(2500 if not big else 25000):
         scale = rng.choice(UNIFORM)
         check_range(out, rng, scale, gen_label(rng, scale))
+    check_derived_all(out, rng, big)
     check_policy(out, rng)
     check_boundaries(out, rng, big)
     _, _, first, last = tables()
@@ -899,6 +1044,8 @@ def replay(f):
         check_leap_day_date(out, i["leap_day"], i["delta_us"])
     elif "boundary_day" in i:
         check_day_boundary_date(out, i["boundary_day"], i["delta_us"])
+    elif "derived_scale" in i:
+        check_derived(out, i["derived_scale"], i["clock_us"], i["t_us"], i["via"])
     elif "to" in i:
         check_pair(out, rng, i["scale"], i["to"], i["clock_us"])
     elif "step_us" in i:
